@@ -83,6 +83,9 @@ func (its *ordaMap) Put(key string, value interface{}) (interface{}, errors.Orda
 	if key == "" || types.IsNullValue(value) {
 		return nil, errors.DatatypeIllegalParameters.New(its.L(), "neither empty key nor null value is not allowed")
 	}
+	if err := types.CheckEncodable(value); err != nil {
+		return nil, errors.DatatypeIllegalParameters.New(its.L(), err.Error())
+	}
 	jsonSupportedType := types.ConvertToJSONSupportedValue(value)
 
 	op := operations.NewPutOperation(key, jsonSupportedType)
